@@ -81,6 +81,12 @@ fn cancel_order_syscall(
         _ => return Err(JsError::type_error("__cancelOrder__ requires order ID")),
     };
 
+    // Only an order that was actually issued can be cancelled, and only once: the host must
+    // never be told about a cancellation it cannot match to an order it has seen
+    if id.0 == 0 || id.0 >= interp.next_order_id || interp.cancelled_orders.contains(&id) {
+        return Ok(Guarded::unguarded(JsValue::Undefined));
+    }
+
     // Mark as cancelled
     interp.cancelled_orders.push(id);
 
